@@ -6,7 +6,7 @@
    repaired by the fix: commits 50fc060 and 1070095). *)
 From Coq Require Import ZArith List Bool Lia.
 From Mistletoe Require Import Base.Sx Base.PyStr Base.PyText Gen.GenTables Gen.GenConfig Model.Tree Model.CoreTokens Model.Block Model.Build
-     Model.MarkdownRenderer Model.Parser Proofs.PlainProse Proofs.Prose Proofs.ProseLines Proofs.ListLaw Proofs.FenceLaw Spec.Fragment Proofs.FragmentP Proofs.FragmentDoc Proofs.FragmentHtml.
+     Model.MarkdownRenderer Model.Parser Proofs.PlainProse Proofs.Prose Proofs.ProseLines Proofs.ListLaw Proofs.FenceLaw Spec.Fragment Proofs.InertProse Proofs.FragmentP Proofs.FragmentDoc Proofs.FragmentHtml.
 Import ListNotations.
 Local Open Scope Z_scope.
 
@@ -145,13 +145,14 @@ Section RT.
   Lemma rt_para c body more : wf_b (FPara c body more) = true -> RT (FPara c body more).
   Proof.
     intros Hw. destruct (wf_para c body more Hw) as (PL & _ & Hc).
-    assert (Hall : Forall plain_line ((c :: body) :: more)) by (constructor; [exact PL|apply Forall_forall; intros x Hx; rewrite Forall_forall in Hc; apply (Hc x Hx)]).
+    assert (Hall : Forall block_line ((c :: body) :: more)) by (constructor; [exact PL|apply Forall_forall; intros x Hx; rewrite Forall_forall in Hc; apply (Hc x Hx)]).
+    destruct (inert_para_core _ (wf_para_inert c body more Hw)) as (_ & _ & _ & H10).
     assert (Eb : map bare (spell (FPara c body more)) = (c :: body) :: more).
     { cbn [spell map bare repeat app]. f_equal. rewrite map_map. rewrite <- (map_id more) at 2. apply map_ext_in. intros l Hl.
       rewrite Forall_forall in Hc. destruct (Hc l Hl) as [(_ & _ & Hne & _) _]. destruct l; [contradiction|reflexivity]. }
     unfold RT, md_lines. rewrite Eb. cbn [tok_of block_lines]. unfold span_to_lines. cbn [fragments_to_lines].
     rewrite plain_from_prose; [reflexivity| |discriminate].
-    apply Forall_forall. intros l Hl. rewrite Forall_forall in Hall. destruct (Hall l Hl) as (Hp & _ & Hne & _). split; [apply plain_no; [reflexivity|exact Hp]|exact Hne].
+    apply Forall_forall. intros l Hl. rewrite Forall_forall in Hall. destruct (Hall l Hl) as (_ & _ & Hne & _). rewrite Forall_forall in H10. split; [apply H10; exact Hl|exact Hne].
   Qed.
 
   Lemma rt_head lv c body : wf_b (FHead lv c body) = true -> RT (FHead lv c body).
